@@ -1,5 +1,7 @@
 import CuqiVerif.Model.Proto
 import CuqiVerif.Model.C14
+import CuqiVerif.Model.C14_gibbs
+import CuqiVerif.Model.C14_api
 open CuqiVerif CuqiVerif.Proto CuqiVerif.C14
 
 /-!
@@ -11,11 +13,21 @@ Line protocol (one program per line):
                      checkpoint and replaces the current one (random stream and callback log carried on)
         `loadsame` : the current sampler loads the last checkpoint
         `badload`  : `set_state` with a key that is not a state key (must be refused)
+        `init`     : explicit `initialize()`; emits ok | E:already | E:unset (guards of Model/C14_api.lean)
+        `loadtype` : `load_checkpoint` of a dictionary whose `sampler_type` is another class; emits E:type (nothing assigned)
+        `loadpart` : `load_checkpoint` of `{scale: 9, not_a_state_key: 0}`; emits E:key (the first assignment stays)
+        x0 may be `N<dim>` (no initial point given: `ones(dim)`), scale may be `N` (None: `_validate_initialization` raises,
+        every op that initialises is an error)
         `get`      : emit a snapshot  S=<samples>;A=<acc>;E=<events>;T=<tunes>;K=<state>;I=<initialised>
   leg <view 0|1> <callback 0|1> <N> <Nb> <x0 id> <outcome ids>     stateless interface
   ti <tune_freq> <Nb>                                               max(int(tune_freq*Nb),1)
   hg <ops> <sweep outcome ids>                                      HybridGibbs storage / tuning calls
   gl <ops> <init id> <sweep outcome ids>                            legacy Gibbs storage
+  glf <ops> <init id> <sweep outcome ids>                           legacy Gibbs.sample(Ns, Nb) in full; ops s<Ns>b<Nb>;
+      one output per op: C=<returned chain>;W=<samples_warmup> or errI (IndexError) / errV (ValueError; object unchanged)
+  hgt <blocks> <ops> <stream>                                       HybridGibbs on `toyBlockSpec` blocks (Model/C14_gibbs.lean)
+      blocks (`;`-separated): <x0 a:b:c | N<dim>>|<scale>|<nuts 0|1>|<num_sampling_steps | d>|<already initialised 0|1>
+      ops: s<n> | w<n>@<tune_freq> | get   (snapshot C=<current_samples>;S=<stored rows>;T=<tune calls>;B=<per block acc/point/scale/eps_bar/shift/initialised>;R=<stream left>)
 -/
 
 def fmtVal : Val → String
@@ -43,8 +55,27 @@ structure Sess where
   out : List String
 
 /-- one op; `none` = the implementation must raise here -/
-def execOp (sp : Spec Int Int) (cfg : Obj) (s : Sess) (op : String) : Option Sess :=
+def fmtApi : Option ApiError → String
+  | none => "ok"
+  | some .alreadyInit => "E:already"
+  | some .unsetKey => "E:unset"
+  | some .typeMismatch => "E:type"
+  | some .badKey => "E:key"
+
+def execOp (sp : Spec Int Int) (cls : String) (dim : Nat) (cfg : Obj) (s : Sess) (op : String) : Option Sess :=
+  -- a configuration that `_validate_initialization` rejects makes every initialising op raise
+  let cfgOk : Bool := (initializeApi sp dim (Run.fresh cfg ([] : List Int))).2.isNone
   if op = "get" then some { s with out := s.out ++ [snapshot sp s.run] }
+  else if op = "init" then
+    let res := initializeApi sp dim s.run
+    some { s with run := res.1, out := s.out ++ [fmtApi res.2] }
+  else if !cfgOk then none
+  else if op = "loadtype" then
+    let res := loadCheckpointApi sp cls dim "SomeOtherSampler" [("current_point", .int 0)] s.run
+    some { s with run := res.1, out := s.out ++ [fmtApi res.2] }
+  else if op = "loadpart" then
+    let res := loadCheckpointApi sp cls dim cls [("scale", .int 9), ("not_a_state_key", .int 0)] s.run
+    some { s with run := res.1, out := s.out ++ [fmtApi res.2] }
   else if op = "save" then
     let res := saveCheckpoint sp s.run
     some { s with run := res.1, ckpt := some res.2 }
@@ -87,19 +118,19 @@ def execOp (sp : Spec Int Int) (cfg : Obj) (s : Sess) (op : String) : Option Ses
     | _ => none
   else none
 
-def runExp (sp : Spec Int Int) (cfg : Obj) (ops : List String) (stream : List Int) : String :=
+def runExp (sp : Spec Int Int) (cls : String) (dim : Nat) (cfg : Obj) (ops : List String) (stream : List Int) : String :=
   let s0 : Sess := { run := Run.fresh cfg stream, ckpt := none, out := [] }
   let rec go (i : Nat) (ops : List String) (s : Sess) : String :=
     match ops with
     | [] => if s.out.isEmpty then "_" else "#".intercalate s.out
     | op :: rest =>
-      match execOp sp cfg s op with
+      match execOp sp cls dim cfg s op with
       | none => s!"err:{i}"
       | some s' => go (i + 1) rest s'
   go 0 ops s0
 
 def validOp (op : String) : Bool :=
-  op ∈ ["get", "save", "load", "loadsame", "badload", "reinit"] ||
+  op ∈ ["get", "save", "load", "loadsame", "badload", "reinit", "init", "loadtype", "loadpart"] ||
   (op.startsWith "s" && ((op.drop 1).toString.toNat?).isSome) ||
   (op.startsWith "s" && (match (op.drop 1).toString.splitOn "b" with
       | [n, b] => n.toNat?.isSome && (match b.toNat? with | some k => decide (k > 0) | none => false)
@@ -154,6 +185,96 @@ def gibbsLegacyOps (ops : List String) (init : Int) (stream : List Int) : Option
       | none => none
   go ops (false, [], stream)
 
+/-! ### HybridGibbs on toy blocks -/
+
+structure HgBlockCfg where
+  x0 : Val
+  dim : Nat
+  scale : Int
+  nuts : Bool
+  nsteps : Nat
+  preinit : Bool
+
+def parseHgBlock (s : String) : Option HgBlockCfg :=
+  match s.splitOn "|" with
+  | [x0, sc, nuts, ns, pre] =>
+    let x0v : Option (Val × Nat) :=
+      if x0.startsWith "N" then (x0.drop 1).toString.toNat?.map (fun d => (Val.none, d))
+      else (parseInts ":" x0).map (fun v => (Val.ints v, v.length))
+    let nsv : Option Nat := if ns = "d" then some 1 else ns.toNat?
+    match x0v, sc.toInt?, nsv with
+    | some (v, d), some sc, some ns =>
+      if (nuts = "0" || nuts = "1") && (pre = "0" || pre = "1") then
+        some { x0 := v, dim := d, scale := sc, nuts := nuts = "1", nsteps := ns, preinit := pre = "1" }
+      else none
+    | _, _, _ => none
+  | _ => none
+
+def hgSnapshot (s : HGS Int Int) (rows : List (List Val)) (tl : List (Nat × Nat × Nat)) (ds : List Int) : String :=
+  let blk (r : Run Int Int) : String :=
+    (if r.acc.isEmpty then "_" else ".".intercalate (r.acc.map toString)) ++ "/" ++ fmtVal (point r.obj) ++ "/" ++ fmtVal (r.obj.get "scale") ++ "/" ++
+      fmtVal (r.obj.get "eps_bar") ++ "/" ++ fmtVal (r.obj.get "shift") ++ "/" ++ fmtBool r.initialized
+  "C=" ++ "|".intercalate (s.cur.map fmtVal) ++
+  ";S=" ++ commaJoin (rows.map (fun row => "|".intercalate (row.map fmtVal))) ++
+  ";T=" ++ commaJoin (tl.map (fun t => s!"{t.1}/{t.2.1}/{t.2.2}")) ++
+  ";B=" ++ commaJoin (s.runs.map blk) ++ ";R=" ++ toString ds.length
+
+def hgToyOps (cfgs : List HgBlockCfg) (ops : List String) (stream : List Int) : Option String :=
+  let bs : List (Block Int Int) := cfgs.map (fun c => { spec := toyBlockSpec, nutsLike := c.nuts, nsteps := c.nsteps, dim := c.dim })
+  let rs : List (Run Int Int) := cfgs.map (fun c =>
+    let cfg : Obj := (Obj.empty.set "initial_point" c.x0).set "initial_scale" (.int c.scale)
+    let r : Run Int Int := Run.fresh cfg []
+    if c.preinit then initializeRun toyBlockSpec { r with obj := r.obj.set "target" (.ints []) } else r)
+  match hgInit bs rs with
+  | none => some "err:init"
+  | some s0 =>
+    let rec go (ops : List String) (st : HGS Int Int × List (List Val) × List Int × List (Nat × Nat × Nat)) (out : List String) : Option String :=
+      match ops with
+      | [] => some (if out.isEmpty then "_" else "#".intercalate out)
+      | op :: rest =>
+        if op = "get" then go rest st (out ++ [hgSnapshot st.1 st.2.1 st.2.2.2 st.2.2.1])
+        else if op.startsWith "s" then
+          match (op.drop 1).toString.toNat? with
+          | some n =>
+            let r := hgSample bs n (st.1, st.2.1, st.2.2.1)
+            go rest (r.1, r.2.1, r.2.2, st.2.2.2) out
+          | none => none
+        else if op.startsWith "w" then
+          match (op.drop 1).toString.splitOn "@" with
+          | [n, tf] =>
+            match n.toNat?, parseRat tf with
+            | some n, some tf => go rest (hgWarmup bs n tf st) out
+            | _, _ => none
+          | _ => none
+        else none
+    go ops (s0, [], stream, []) []
+
+def gibbsLegacyFullOps (ops : List String) (init : Int) (stream : List Int) : Option String :=
+  let sweep : Int → List Int → Int × List Int := fun s ds =>
+    match ds with
+    | d :: rest => (d, rest)
+    | [] => (s, [])
+  let rec go (ops : List String) (st : GLState Int Int) (out : List String) : Option String :=
+    match ops with
+    | [] => some (if out.isEmpty then "_" else "#".intercalate out)
+    | op :: rest =>
+      if op.startsWith "s" then
+        match (op.drop 1).toString.splitOn "b" with
+        | [n, b] =>
+          match n.toNat?, b.toNat? with
+          | some n, some b =>
+            match gibbsLegacyFull sweep init n b st with
+            | .error .index => go rest st (out ++ ["errI"])
+            | .error .value => go rest st (out ++ ["errV"])
+            | .ok (st', chain) =>
+              -- the warm-up array is reported by the call that filled it (a later call with Nb = 0 re-allocates it empty:
+              -- not part of any returned value, not compared)
+              go rest st' (out ++ ["C=" ++ fmtIds chain ++ ";W=" ++ (if b = 0 then "-" else match st'.warm with | some w => fmtIds w | none => "N")])
+          | _, _ => none
+        | _ => none
+      else none
+  go ops { samples := none, warm := none, stream := stream } []
+
 def step : List String → String
   | ["exp", kind, x0, scale, ops, stream] =>
     let opl := ops.splitOn ";"
@@ -162,14 +283,18 @@ def step : List String → String
     | some ds =>
       if !(opl.all validOp) then "bad-op"
       else if kind = "toy" then
-        match parseInts ":" x0, scale.toInt? with
-        | some v, some sc =>
-          let cfg : Obj := (Obj.empty.set "initial_point" (.ints v)).set "initial_scale" (.int sc)
-          runExp toySpec cfg opl ds
+        let x0v : Option (Val × Nat) :=
+          if x0.startsWith "N" then (x0.drop 1).toString.toNat?.map (fun d => (Val.none, d))
+          else (parseInts ":" x0).map (fun v => (Val.ints v, v.length))
+        let scv : Option Val := if scale = "N" then some Val.none else scale.toInt?.map Val.int
+        match x0v, scv with
+        | some (v, dim), some sc =>
+          let cfg : Obj := (Obj.empty.set "initial_point" v).set "initial_scale" sc
+          runExp (withDefault toySpec dim) "Toy" dim cfg opl ds
         | _, _ => "bad-op"
       else if kind = "replay" then
         match x0.toInt? with
-        | some p => runExp replaySpec (Obj.empty.set "initial_point" (.int p)) opl ds
+        | some p => runExp replaySpec "replay" 0 (Obj.empty.set "initial_point" (.int p)) opl ds
         | none => "bad-op"
       else "bad-op"
   | ["leg", view, cb, n, nb, x0, outs] =>
@@ -192,6 +317,14 @@ def step : List String → String
   | ["gl", ops, init, stream] =>
     match init.toInt?, parseInts "," stream with
     | some i, some ds => (gibbsLegacyOps (ops.splitOn ";") i ds).getD "bad-op"
+    | _, _ => "bad-op"
+  | ["glf", ops, init, stream] =>
+    match init.toInt?, parseInts "," stream with
+    | some i, some ds => (gibbsLegacyFullOps (ops.splitOn ";") i ds).getD "bad-op"
+    | _, _ => "bad-op"
+  | ["hgt", blocks, ops, stream] =>
+    match (blocks.splitOn ";").mapM parseHgBlock, parseInts "," stream with
+    | some cfgs, some ds => if cfgs.isEmpty then "bad-op" else (hgToyOps cfgs (ops.splitOn ";") ds).getD "bad-op"
     | _, _ => "bad-op"
   | _ => "bad-op"
 
